@@ -57,7 +57,7 @@ ASSUMPTIONS = ["solver tolerance = residual (dlon^2 + dlat^2) < 1e-7 deg^2 as do
                "all four masked -> undef_value"]
 TIERS = {"quick": dict(runs=600, budget_s=45, shrink=100),
          "thorough": dict(runs=50000, budget_s=900, shrink=200)}
-REQUIRED_PROBES = ["run_stereo", "run_linear", "run_subgrid", "roundtrip", "output_lonlat", "utility_mask", "utility_mask_and_outside",
+REQUIRED_PROBES = ["run_stereo", "run_linear", "run_subgrid", "roundtrip", "output_lonlat", "utility_mask", "utility_mask_and_outside", "release_on_a_lonlat_lattice",
                    "utility_outside_zero"]
 
 PROFILE = gen.profile(
@@ -86,8 +86,57 @@ def generate(seed: int, tier: str, idx: int) -> dict:
     for r in sc["release"]["rows"]:
         lon, lat = xy_to_lonlat(sc, np.array([r["X"]]), np.array([r["Y"]]))
         r["lon"], r["lat"] = float(lon[0]), float(lat[0])
-    sc["plan"] = {"kind": "run", "probe_seed": s.randint(0, 2**31), "centre_row": bool(sc.pop("plan_centre", False))}
+    lattice = False
+    rows = sc["release"]["rows"]
+    if sc["release"]["use_lonlat"] and len(rows) >= 2 and s.chance(0.4):
+        # positions on a longitude x latitude lattice: different positions share a longitude or a latitude
+        # (on a rotated or polar-stereographic grid X and Y each depend on both)
+        a, b = rows[0], rows[1]
+        xlo, xhi, ylo, yhi = truth.valid_region(sc)
+        m = truth.mask_rho(sc)
+        extra = []
+        for lon, lat, src in ((a["lon"], b["lat"], a), (b["lon"], a["lat"], b)):
+            xy = _invert(sc, lon, lat, 0.5 * (a["X"] + b["X"]), 0.5 * (a["Y"] + b["Y"]))
+            if xy is None:
+                continue
+            x, y = xy
+            if xlo + 0.05 < x < xhi - 0.05 and ylo + 0.05 < y < yhi - 0.05 and m[int(round(y)), int(round(x))] \
+                    and abs(x - round(x) + 0.0) != 0.5 and abs(y - round(y)) != 0.5:
+                extra.append(dict(src, X=float(x), Y=float(y), lon=float(lon), lat=float(lat)))
+        if extra and (a["lon"] != b["lon"] and a["lat"] != b["lat"]):
+            tag = max(r["tag"] for r in rows) + 1
+            for k, r in enumerate(extra):
+                r["tag"] = tag + k
+                r["step"] = a["step"]
+                r["Z"] = 0.0
+            k0 = rows.index(b) + 1
+            sc["release"]["rows"] = rows[:k0] + extra + rows[k0:]
+            sc["release"]["rows"].sort(key=lambda r: r["step"])
+            lattice = True
+    sc["plan"] = {"kind": "run", "probe_seed": s.randint(0, 2**31), "centre_row": bool(sc.pop("plan_centre", False)),
+                  "lattice": lattice}
     return sc
+
+
+def _invert(sc, lon: float, lat: float, x0: float, y0: float):
+    """grid position with the given lon/lat by Newton iteration on the generator's own lon/lat formulas"""
+    x, y = float(x0), float(y0)
+    for _ in range(30):
+        f = xy_to_lonlat(sc, np.array([x, x + 1e-4, x]), np.array([y, y, y + 1e-4]))
+        r0, r1 = f[0][0] - lon, f[1][0] - lat
+        if abs(r0) + abs(r1) < 1e-12:
+            return x, y
+        a11, a12 = (f[0][1] - f[0][0]) / 1e-4, (f[0][2] - f[0][0]) / 1e-4
+        a21, a22 = (f[1][1] - f[1][0]) / 1e-4, (f[1][2] - f[1][0]) / 1e-4
+        det = a11 * a22 - a12 * a21
+        if not np.isfinite(det) or abs(det) < 1e-30:
+            return None
+        x -= (a22 * r0 - a12 * r1) / det
+        y -= (-a21 * r0 + a11 * r1) / det
+        jm, im = truth.dims(sc)
+        if not (0 <= x <= im - 1 and 0 <= y <= jm - 1):
+            return None
+    return None
 
 
 def features(sc) -> set[str]:
@@ -160,6 +209,8 @@ def execute_run(sc) -> Result:
                 res.add(Violation("C16.roundtrip", None, f"ll2xy(xy2ll({X[q]:.4f},{Y[q]:.4f}))",
                                   f"({X2[q]:.6f},{Y2[q]:.6f}) residual {resid[q]:.3g} deg^2", "residual < 1e-7 deg^2"))
             res.probes["roundtrip"] += 1
+            if sc["plan"].get("lattice"):
+                res.probes["release_on_a_lonlat_lattice"] += 1
             if sc["plan"].get("centre_row") and sc["release"].get("use_lonlat"):
                 res.probes["release_row_in_the_middle_of_the_array"] += 1
         # ---- released positions
